@@ -16,7 +16,7 @@ From Astisub Require Import Kit.Base Kit.Scan Model.Srt Model.Vtt Model.Ttx Proo
 From Astisub Require Import Model.Ssa Proofs.SsaIgnore Model.SsaC Proofs.SsaChk.
 From Astisub Require Import Kit.Chk Model.SrtC Model.VttC Proofs.SrtChk Proofs.VttChk Model.Dur Model.DurC Proofs.DurChk.
 From Astisub Require Import Model.Stl Model.StlIO Proofs.StlBlocks Proofs.StlIOProofs.
-From Astisub Require Import Kit.Xml Model.Ttml Model.PlainTtml Proofs.TtmlBase Proofs.TtmlIO.
+From Astisub Require Import Kit.Xml Model.Ttml Model.PlainTtml Proofs.TtmlBase Proofs.TtmlIO Model.TtmlGo Proofs.TtmlGoProofs.
 From Astisub Require Model.TtmlC Proofs.TtmlChk.
 Import ListNotations.
 
@@ -94,8 +94,8 @@ Theorem C08_ttml_reader_total_bytes : forall data (p : N), read_ttml_bytes data 
 Proof. exact read_ttml_bytes_total. Qed.
 Theorem C08_ttml_writer_total : forall d (p : N), write_ttml d <> Panic p.
 Proof. exact write_ttml_total. Qed.
-Theorem C08_ttml_writer_total_bytes : forall ind d (p : N), write_ttml_bytes ind d <> Panic p.
-Proof. exact write_ttml_bytes_total. Qed.
+Theorem C08_ttml_writer_total_bytes : forall ind d (p : N), write_ttml_bytes_go ind d <> Panic p.
+Proof. exact write_ttml_bytes_go_total. Qed.
 
 Print Assumptions C08_ttml_reader_total.
 Print Assumptions C08_ttml_reader_total_bytes.
@@ -307,3 +307,39 @@ End C08_TTML.
 Print Assumptions C08_TTML.C08_ttml_checked_reader_total.
 Print Assumptions C08_TTML.C08_ttml_checked_writer_total.
 Print Assumptions C08_TTML.C08_ttml_checked_propagate_total.
+Print Assumptions C08_TTML.C08_ttml_checked_time_agrees.
+Print Assumptions C08_TTML.C08_ttml_checked_reader_agrees.
+Print Assumptions C08_TTML.C08_ttml_checked_writer_agrees.
+(* ---- TTML: nil items, and what the guards protect (audit 2, N6) ----
+   WriteToTTML starts with s.Items = nonNilItems(s.Items) (ttml.go:690): write_ttml_items_c takes the item list with
+   its nil elements and filters it as the code does.  No panic whatever the nil elements; they are skipped; a list of
+   nil items only is refused.  C08_ttml_guards_needed: model functions (out_header_c, styles_loop_c) or their variants
+   with ONE guard made optional (out_attrs_g, out_p_g, propagate_g; with the guard kept they are the model functions by
+   reflexivity: out_attrs_g_kept, out_p_g_kept, propagate_g_kept) reach the panic site the guard protects. *)
+Module C08_TTML_N6.
+Import Astisub.Model.TtmlC Astisub.Proofs.TtmlChk.
+Theorem C08_ttml_writer_total_nil_items : forall items w (p : N), write_ttml_items_c items w <> Panic p.
+Proof. exact write_ttml_items_c_total. Qed.
+Theorem C08_ttml_nil_items_skipped : forall (l : list ttc_witem) (a b : list (option ttc_witem)) w,
+  somes a = [] -> somes b = [] ->
+  write_ttml_items_c (a ++ map Some l ++ b) w = write_ttml_items_c (map Some l) w.
+Proof. exact ttml_nil_items_skipped. Qed.
+Example C08_ttml_only_nil_items : forall w, write_ttml_items_c [None; None] w = Err ENothingToWrite.
+Proof. exact ttml_only_nil_items. Qed.
+Theorem C08_ttml_guards_kept : forall s it a,
+  out_attrs_g true s = out_attrs_c s /\ out_p_g true it = out_p_c it /\ propagate_g true a = propagate_c a.
+Proof. intros s it a. repeat split. Qed.
+Example C08_ttml_guards_needed :
+  out_header_c s_region [([114], None)] 690 691 693 694 [114] = Panic 690 /\
+  out_attrs_g false None = Panic 560 /\ out_attrs_g true None = Ok no_attrs /\
+  styles_loop_c [mkStyle [] None no_attrs] None None = Panic 375 /\
+  out_p_g false (mkTWitem 0 0 None None None []) = Panic 763 /\
+  (exists n, out_p_g true (mkTWitem 0 0 None None None []) = Ok n) /\
+  propagate_g false (ttc_extent_only [56; 48; 37]) = Panic 10394 /\
+  propagate_g true (ttc_extent_only [56; 48; 37]) = Ok tt.
+Proof. exact ttml_unguarded_sites. Qed.
+End C08_TTML_N6.
+Print Assumptions C08_TTML_N6.C08_ttml_writer_total_nil_items.
+Print Assumptions C08_TTML_N6.C08_ttml_nil_items_skipped.
+Print Assumptions C08_TTML_N6.C08_ttml_guards_kept.
+Print Assumptions C08_TTML_N6.C08_ttml_guards_needed.
